@@ -580,6 +580,105 @@ def wave8_rules(ctx):
     return obs
 
 
+def wave9_rules(ctx):
+    """obligations added after the ninth wave of seeded changes"""
+    from share import relabel
+    ob = ctx.ob
+    tc = ctx.tc
+    obs = []
+    # (1) sub-paths collected below an operand are never dropped: the result of a function that returns `(state, sub_paths)` keeps
+    #     its second component, and a callee that appends to a sub-path list is given the caller's list (or a list used afterwards)
+    pair_fns = set(f.name for f in tc.fns if f.body and f.module[:2] == ["proc_gen", "expr"] and f.ret and "PathAnalysisState" in f.ret and "Vec<PathSliceList>" in f.ret.replace(" ", ""))
+    acc_fns = {}
+    for f in tc.fns:
+        if not f.body or f.module[:2] != ["proc_gen", "expr"]:
+            continue
+        for i, p_ in enumerate([q for q in f.params if not q.get("self")]):
+            if "Vec<PathSliceList>" in (p_.get("ty") or "").replace(" ", "") and "&mut" in (p_.get("ty") or ""):
+                acc_fns[f.name] = i
+    k = 0
+    for f in tc.fns:
+        if not f.body or f.module[:2] != ["proc_gen", "expr"]:
+            continue
+        mentions = {}
+        for n in sir.walk(f.body):
+            if n.get("k") == "path" and len(n["segs"]) == 1:
+                mentions[n["segs"][0]] = mentions.get(n["segs"][0], 0) + 1
+        own_acc = [q.get("pat", {}).get("name") for q in f.params if not q.get("self") and "Vec<PathSliceList>" in (q.get("ty") or "").replace(" ", "")]
+        passed = {}
+        kept_n = [0]
+        for n in sir.walk(f.body):
+            if n.get("k") == "local" and n.get("init") is not None:
+                c = n["init"]
+                while c.get("k") in ("try", "paren"):
+                    c = c["e"]
+                nm = (sir.call_name(c) or "").split("::")[-1] if c.get("k") in ("call", "mcall") else None
+                if nm in pair_fns and n["pat"].get("k") == "p_tuple" and len(n["pat"]["elems"]) == 2:
+                    k += 1
+                    e2 = n["pat"]["elems"][1]
+                    kept = e2.get("k") == "p_ident" and mentions.get(e2["name"], 0) > 0
+                    kept_n[0] += 1
+                    obs.append(ob("C06.paths/sub-paths-kept/%s/#%d" % (f.qual, kept_n[0]), kept, ctx.where(f),
+                                  "the sub-paths returned by `%s` are bound to `%s` and %s" % (nm, sir.pat_str(e2), "used" if kept else "dropped"),
+                                  witness=None if kept else "{{ (a ? b : c) + 1 }}: the paths read by the condition are not part of the guard, a change of `a` is missed"))
+            if n.get("k") in ("call", "mcall"):
+                nm = (sir.call_name(n) or "").split("::")[-1]
+                if nm in acc_fns and len(n["args"]) > acc_fns[nm]:
+                    a = sir.strip_ref(n["args"][acc_fns[nm]])
+                    k += 1
+                    if a.get("k") == "path" and len(a["segs"]) == 1:
+                        v = a["segs"][0]
+                        good = v in own_acc or mentions.get(v, 0) >= 2
+                        d = "`%s` is given the list `%s` (%s)" % (nm, v, "the caller's own list" if v in own_acc else "a local list with %d uses" % mentions.get(v, 0))
+                    else:
+                        good = False
+                        d = "`%s` is given the temporary `%s`: what it collects is dropped" % (nm, sir.expr_str(a)[:40])
+                    passed.setdefault(nm, []).append((good, d))
+        for nm, rs in sorted(passed.items()):
+            bad = [d for g_, d in rs if not g_]
+            obs.append(ob("C06.paths/sub-paths-passed/%s/%s" % (f.qual, nm), not bad, ctx.where(f), "%d calls: %s" % (len(rs), (bad or [rs[0][1]])[0]),
+                          witness=None if not bad else "{{ (a ? b : c) + 1 }}: the paths read by the condition are not part of the guard"))
+    if k < 20:
+        obs.append(ob("C06.floor/sub-path-sites", False, "proc_gen/expr.rs", "only %d sub-path hand-overs found (floor 20)" % k))
+    # (2) an array literal's path entry is positional: every kind of element, holes included, contributes one entry
+    k = 0
+    for f in tc.fns:
+        if not f.body or f.module[:2] != ["proc_gen", "expr"]:
+            continue
+        for lp in sir.walk(f.body):
+            if lp.get("k") != "for":
+                continue
+            for m in sir.walk(lp["body"]):
+                if m.get("k") != "match":
+                    continue
+                vs = [sir.pat_str(a["pat"]) for a in m["arms"]]
+                if not vs or not all(v.startswith("ArrayFieldKind::") for v in vs):
+                    continue
+                helpers = set(x["pat"]["name"] for x in sir.walk(f.body) if x.get("k") == "local" and x.get("init") is not None and x["init"].get("k") == "closure" and x["pat"].get("k") == "p_ident"
+                              and any(y.get("k") == "mcall" and y["m"] == "push" for y in sir.walk(x["init"])))
+                if not any(y.get("k") == "mcall" and y["m"] == "push" for a in m["arms"] for y in sir.walk(a["body"])) and not helpers:
+                    continue
+                for a in m["arms"]:
+                    v = sir.pat_str(a["pat"]).split("{")[0].split("(")[0].strip()
+                    pushes = any(y.get("k") == "mcall" and y["m"] == "push" for y in sir.walk(a["body"]))
+                    via = any(y.get("k") == "call" and (sir.call_name(y) or "") in helpers for y in sir.walk(a["body"]))
+                    other = [sir.call_name(y) for y in sir.walk(a["body"]) if y.get("k") in ("call", "mcall") and not sir.write_fmt_call(y)
+                             and (sir.call_name(y) or "").split("::")[-1] not in ("len", "write_fmt", "write_str", "push_str", "format_args", "new_const", "new_v1", "new")]
+                    k += 1
+                    verdict = True if (pushes or via) else (None if other else False)
+                    obs.append(ob("C06.paths/array-positions/%s" % v, verdict, ctx.where(f),
+                                  "the arm for %s %s" % (v, "adds an entry to the positional list" if verdict else ("adds no entry" if verdict is False else "calls %s: not decided" % other[:3])),
+                                  witness=None if verdict is not False else "{{ [ , b] }}: `b` sits at index 1 of the value but at index 0 of the path list, a change of `b` updates nothing"))
+    if k < 3:
+        obs.append(ob("C06.floor/array-positions", False, "proc_gen/expr.rs", "only %d element kinds of an array literal found (floor 3)" % k))
+    # (3) dynamic-include bookkeeping and the value visit of the analysis pass decide which bindings are recorded at all
+    #     (shared with C07.dynamic / C07.values)
+    from rules.c07 import dynamic_rule, values_rule
+    obs += relabel(dynamic_rule(ctx), "C07.dynamic/counter", "C06.fastpath/dynamic/counter")
+    obs += relabel(values_rule(ctx), "C07.values", "C06.fastpath/values")
+    return obs
+
+
 def run(ctx):
     obs = runtime_rule(ctx)
     obs += guard_rule(ctx)
@@ -588,6 +687,7 @@ def run(ctx):
     obs += dropped_text_rule(ctx)
     obs += tuple_partner_rule(ctx)
     obs += wave8_rules(ctx)
+    obs += wave9_rules(ctx)
     # the update entry uses the binding map whenever a field is advertised: what disables a field is part of update soundness
     from rules.c07 import collector_rule
     for x in collector_rule(ctx):
